@@ -6,9 +6,10 @@
    every run; Spec/RfcLayouts.v is the frozen RFC table.  The field codecs that
    interpret a layout (Model/Rdata.v) are tied to msg_helpers.go by the
    correspondence check for every type on every run.  Names, the header word and
-   the RCODE split come first; the generic value -> wire -> value theorems over
-   the translated layouts (per field kind, per field sequence, per record) are
-   at the end, with the census of the record types they cover. *)
+   the RCODE split come first; then the generic value -> wire -> value theorems
+   over the translated layouts (per field kind, per field sequence, per record,
+   all record types), and last the converse wire -> value -> wire theorems for
+   the record types made of the plainer field kinds (partial). *)
 From Dns Require Import Model.Msg Spec.RfcLayouts Proofs.LayoutProofs Proofs.HeaderProofs
   Proofs.NameRoundtripProofs Proofs.RoundtripFieldProofs Proofs.RoundtripRRProofs Gen.Layouts Gen.Registry.
 Open Scope list_scope.
@@ -81,7 +82,8 @@ Proof. intros ls cap post Hv Hc. split; [apply pack_show_name; assumption|apply 
                     255 octets, non-empty lists of such; 4 / 16 octet addresses;
                     octet strings with only the backslash escaped; opaque octets
                     and, for a sized field, as many octets as its size field
-                    says; lists of names; type bitmaps that are strictly
+                    says; lists of such strings (also empty), lists of names;
+                    type bitmaps that are strictly
                     increasing lists of 16-bit codes; EDNS0 options and SVCB
                     parameters held as (code, value) pairs that their own codecs
                     reproduce (opt_view / svcb_view), SVCB keys strictly
@@ -221,3 +223,110 @@ Example record_roundtrip_needs_room :
     Ok ({| rr_name := []; rr_type := 0; rr_class := 0; rr_ttl := 0; rr_rdlength := 0;
            rr_kind := kind_of_type 0; rr_data := [] |}, 3).
 Proof. exact full_buffer_quirk. Qed.
+
+(* APL: an address already masked to its prefix length is canonical in the sense
+   of [canon] (apl_ok) *)
+Theorem masked_apl_prefixes_are_canonical :
+  forall (neg : bool) (prefix : N) (ip : bytes),
+    (lenN ip = 4 \/ lenN ip = 16) -> prefix <= 8 * lenN ip -> mask_bytes ip prefix = ip ->
+    apl_ok (neg, prefix, ip).
+Proof. exact masked_apl_ok. Qed.
+Print Assumptions masked_apl_prefixes_are_canonical.
+
+(* ================================================================== *)
+(* wire -> value -> wire (partial: the field kinds of [conv_kind], i.e. integers,
+   addresses, names, character-strings, lists of them, octet strings, opaque
+   to-the-end and sized octets; not yet type bitmaps, option/parameter lists,
+   APL, lists of names, the gateway union).
+
+   [plain_at k msg off off']   the octets msg[off:off'] are plain for kind k: a
+                    name is written out in full (no compression pointer); the
+                    text of an octet string stays within packStringOctet's
+                    1025-octet limit; no condition for the other kinds.
+   [plain_fields ps us got msg off]  [plain_at] for every statement of the
+                    layout, following the decoder.
+   [conv_layout_ok]  kinds within [conv_kind], field names pairwise distinct. *)
+
+(* one field: unpacking msg[off:off'] and packing the value at any offset of the
+   same height writes exactly msg[off:off'] again *)
+Theorem field_converse_partial :
+  forall (got : rdata) (k k' : fkind) (msg : bytes) (off : N) (vals : list fval) (off' cap : N),
+    wfb msg -> conv_kind k = true -> kind_agree k k' = true -> off <= lenN msg ->
+    unpack_field got k' msg off = Ok (vals, off') -> plain_at k msg off off' ->
+    lenN msg + 320 <= cap ->
+    off <= off' <= lenN msg /\
+    exists x, vals = [x] /\
+      forall (v : rdata) (f : string) (out : bytes), vget v f = Some x -> lenN out = off ->
+        pack_field v f k cap (st0 out) = Ok (st0 (out ++ take_at msg off (off' - off))).
+Proof. exact field_converse. Qed.
+Print Assumptions field_converse_partial.
+
+(* a field sequence: when unpack() ran through all its statements (every field
+   of the layout is present in the result: no early return on exhausted RDATA),
+   pack() of the result writes the octets it was read from *)
+Theorem field_sequence_converse_partial :
+  forall (cap : N) (ps : list pfield) (us : list ufield) (msg : bytes) (off : N) (gotF : rdata)
+         (off' : N) (out : bytes),
+    wfb msg -> sides_agree ps us = true -> conv_layout_ok [] ps = true -> off <= lenN msg ->
+    unpack_fields us [] msg off = Ok (gotF, off') ->
+    plain_fields ps us [] msg off ->
+    Forall (fun fk : pfield => vget gotF (fst fk) <> None) ps ->
+    lenN msg + 320 <= cap -> lenN out = off ->
+    off <= off' <= lenN msg /\
+    pack_fields gotF ps cap (st0 out) = Ok (st0 (out ++ take_at msg off (off' - off))).
+Proof.
+  intros cap ps us msg off gotF off' out Hw Hs Hl Ho Hu Hp Hpr Hc Hlo.
+  destruct (fields_converse cap ps us [] [] msg off gotF off' out Hw Hs Hl Ho (fun _ _ => eq_refl) Hu Hp Hpr Hc Hlo)
+    as [H1 [_ H2]].
+  split; assumption.
+Qed.
+Print Assumptions field_sequence_converse_partial.
+
+(* a record: what UnpackRR reads from plain octets msg[off:off'] with a non-empty
+   RDATA, packRR writes back as the same octets (owner name, TYPE, CLASS, TTL,
+   RDLENGTH, RDATA).  A record with RDLENGTH 0 is excluded: UnpackRR returns it
+   without RDATA fields and packRR would write their zero values. *)
+Theorem record_converse_partial :
+  forall (msg : bytes) (off : N) (r : rr) (off' : N) (L : tlayout) (ls : list label) (cap : N) (out : bytes),
+    wfb msg -> unpack_rr msg off = Ok (r, off') ->
+    find_layout layouts (rr_kind r) = Some L -> conv_layout_ok [] (tl_pack L) = true ->
+    rr_rdlength r <> 0 ->
+    valid_wire ls = true -> off + lenN (wire_name ls) <= lenN msg ->
+    take_at msg off (lenN (wire_name ls)) = wire_name ls ->
+    plain_fields (tl_pack L) (tl_unpack L) [] (takeN off' msg) (off + lenN (wire_name ls) + 10) ->
+    Forall (fun fk : pfield => vget (rr_data r) (fst fk) <> None) (tl_pack L) ->
+    lenN msg + 320 <= cap -> lenN out = off ->
+    off < off' <= lenN msg /\
+    pack_rr r cap false (st0 out) = Ok (st0 (out ++ take_at msg off (off' - off))).
+Proof. exact rr_converse. Qed.
+Print Assumptions record_converse_partial.
+
+(* the record types the converse covers, and those it does not *)
+Theorem converse_covers :
+  map tl_name (filter layout_conv_supported layouts) =
+  ["A"; "AAAA"; "AFSDB"; "ANY"; "AVC"; "CAA"; "CDNSKEY"; "CDS"; "CERT"; "CNAME"; "DHCID"; "DLV";
+   "DNAME"; "DNSKEY"; "DS"; "EID"; "EUI48"; "EUI64"; "GID"; "GPOS"; "HINFO"; "ISDN"; "KEY"; "KX";
+   "L32"; "L64"; "LOC"; "LP"; "MB"; "MD"; "MF"; "MG"; "MINFO"; "MR"; "MX"; "NAPTR"; "NID"; "NIMLOC";
+   "NINFO"; "NS"; "NSAPPTR"; "NSEC3PARAM"; "NULL"; "NXNAME"; "OPENPGPKEY"; "PTR"; "PX"; "RESINFO";
+   "RFC3597"; "RKEY"; "RP"; "RRSIG"; "RT"; "SIG"; "SMIMEA"; "SOA"; "SPF"; "SRV"; "SSHFP"; "TA";
+   "TALINK"; "TKEY"; "TLSA"; "TSIG"; "TXT"; "UID"; "UINFO"; "URI"; "X25"; "ZONEMD"]%string.
+Proof. exact converse_census. Qed.
+Print Assumptions converse_covers.
+
+Theorem converse_does_not_cover :
+  map tl_name (filter (fun L => negb (layout_conv_supported L)) layouts) =
+  ["AMTRELAY"; "APL"; "CSYNC"; "HIP"; "HTTPS"; "IPSECKEY"; "NSEC"; "NSEC3"; "NXT"; "OPT"; "SVCB"]%string.
+Proof. exact converse_uncovered_census. Qed.
+Print Assumptions converse_does_not_cover.
+
+(* non-vacuity: the octets of the MX example, between other octets *)
+Example record_converse_mx :
+  exists r L,
+    wfb ex_mx_wire /\ unpack_rr ex_mx_wire 3 = Ok (r, 30) /\
+    find_layout layouts (rr_kind r) = Some L /\ conv_layout_ok [] (tl_pack L) = true /\
+    rr_rdlength r <> 0 /\ valid_wire ex_owner = true /\
+    take_at ex_mx_wire 3 (lenN (wire_name ex_owner)) = wire_name ex_owner /\
+    plain_fields (tl_pack L) (tl_unpack L) [] (takeN 30 ex_mx_wire) (3 + lenN (wire_name ex_owner) + 10) /\
+    Forall (fun fk : pfield => vget (rr_data r) (fst fk) <> None) (tl_pack L) /\
+    pack_rr r 400 false (st0 [7; 7; 7]) = Ok (st0 (takeN 30 ex_mx_wire)).
+Proof. exact mx_converse_hypotheses_hold. Qed.
